@@ -106,14 +106,19 @@ OPS = ('open_input', 'open_output', 'open_ioport', 'get_input_names',
        'get_output_names', 'get_ioport_names')
 SPECS = (('arg', None), ('arg', 'kw'), ('arg/suffix', None), ('env', None),
          ('env', 'kw'), ('env/suffix', None), ('arg+env-other', None),
-         ('arg/suffix+env-other/suffix', None))
+         ('arg/suffix+env-other/suffix', None),
+         # an API name that itself contains slashes: the name is cut at the
+         # FIRST slash
+         ('arg/suffix2', None), ('env/suffix2', None))
 
 
 def reference(cfg):
     """Pure reference: what must be observed for one configuration."""
     spec, apikw = cfg['spec']
     mod = modname(cfg['native'], cfg['devices'])
-    if 'suffix' in spec.split('+')[0]:
+    if 'suffix2' in spec.split('+')[0]:
+        api = 'AP/I//S'
+    elif 'suffix' in spec.split('+')[0]:
         api = 'APIS'
     elif apikw:
         api = 'APIK'
@@ -187,7 +192,8 @@ def run_case(mido, cfg, acc):
         for k, v in cfg['env'].items():
             os.environ[k] = v
         first = spec.split('+')[0]
-        suffix = '/APIS' if 'suffix' in first else ''
+        suffix = ('/AP/I//S' if 'suffix2' in first else
+                  '/APIS' if 'suffix' in first else '')
         name_arg = None
         if first.startswith('arg'):
             name_arg = mod + suffix
